@@ -12,3 +12,5 @@ LEVEL_NOTE = "Trusts the pyvc encoding (cross-checked natively each run), z3/cvc
 TECHNIQUE = "contract-based deductive verification: VCs generated from the ast of the real functions, discharged by z3/cvc5"
 from contracts import fieldtypes as FT
 UNITS = [FT.unit_text_init(), FT.unit_choice_init(), FT.unit_constant_init(), FT.unit_integer_init(), FT.unit_datetime_init(), FT.unit_decimal_init(), FT.unit_datetime_regex_pattern(), ST.unit_field_class_structure(), F.unit_validated(), F.unit_validate_characters(), F.unit_validate_empty(), F.unit_validate_length(), R.unit_range_validate()]
+from props import _groups as _G
+UNITS = _G.with_groups(PROPERTY, UNITS, _G.VALIDATION, _G.FIELD_DECLS)
